@@ -374,13 +374,25 @@ class World:
     def fresh_dt(self, fresh):
         return None if fresh is None else T0 + dt.timedelta(seconds=fresh)
 
-    def run(self, out=None, fresh=None, fault=None, max_errors=0, scheduler=None, W=1, dry_run=False, capture=None):
+    def run(self, out=None, fresh=None, fault=None, max_errors=0, scheduler=None, W=1, dry_run=False, capture=None, user_transform=False):
         self.fault = fault
         outarg, _ = self.output_arg(out)
         tp = None
-        if capture is not None:
+        if capture is not None or user_transform:
+            world = self
+
             def tp(p, o):
-                capture.append((p.copy(), o))
+                if user_transform:
+                    # a user transformation of the physical plan: one extra call that runs after every other call
+                    def transform_marker():
+                        world.log.append(("call", "T"))
+                        return "T"
+                    others = [n for n in p.graph.nodes() if type(n).__name__ == "Call"]
+                    extra = p.call(transform_marker)
+                    for n in others:
+                        p.add_dependency(n, extra)
+                if capture is not None:
+                    capture.append((p.copy(), o))
                 return p, o
         try:
             r = self.uberjob.run(
@@ -958,6 +970,23 @@ def check_dry(spec, state, post_real, w_real, r_real, out, fr, norm, order="topo
         d = plan_diff(cap[0][0], cap[0][1], pplan, onode)
         if d:
             msgs.append(("C14", "the plan returned by the dry run differs from the physical plan the real run executes: " + d))
+    # the same with a user transform_physical: the dry run must return the TRANSFORMED plan the real run would execute
+    wd = World(spec, snap, versions, clock, norm, order)
+    rd = wd.run(out=out, fresh=fr, dry_run=True, user_transform=True)
+    we = World(spec, snap, versions, clock, norm, order)
+    cap2 = []
+    re_ = we.run(out=out, fresh=fr, capture=cap2, user_transform=True)
+    if rd[0] == "ret" and re_[0] == "ret" and cap2:
+        if [e for e in wd.log if e[0] != "mtime"]:
+            msgs.append(("C14", f"dry run with transform_physical touched stores / ran calls: {[e for e in wd.log if e[0] != 'mtime'][:4]}"))
+        try:
+            d = plan_diff(cap2[0][0], cap2[0][1], rd[1][0], rd[1][1])
+        except Exception as e:  # noqa
+            d = f"dry run returned {rd[1]!r} ({e!r})"
+        if d:
+            msgs.append(("C14", "with transform_physical: the plan returned by the dry run differs from the transformed plan the real run executes: " + d))
+    elif rd[0] != re_[0]:
+        msgs.append(("C14", f"with transform_physical: dry run gave {rd[0]}, real run gave {re_[0]}"))
     del wb.log[:]
     nodes = list(pplan.graph.nodes())
     try:
